@@ -1,20 +1,229 @@
-import HecsModel.Model.Serde
+import HecsModel.Lemmas.SerdeReplay
+import HecsModel.Lemmas.SerdeBundle
 /-
-  C15 — Deserialising malformed data fails cleanly. (interim)
+  C15 — Deserialising malformed data fails cleanly.
+
+  For every handled-type list `H` and every input tree — no well-formedness assumption — both
+  deserializers either report an error or return a world satisfying the representation invariant
+  (`deRow_total`, `deCol_total`).  The classes of malformed input hecs documents as rejected are
+  rejected (section 2); what an accepted input produces is pinned down (section 3).
+
+  Property theorems only; proofs live in `Lemmas/Serde*.lean`.
 -/
 namespace Hecs.Props.C15
-open Hecs Hecs.Serde
+open Hecs Hecs.Serde Hecs.SerdeLemmas
+
+/-! ### 1. totality: an error or a well-formed world, nothing else -/
+
+theorem deRow_total (H : List Nat) (t : Tree) :
+    (∃ m, deRow H t = .error m) ∨ (∃ w, deRow H t = .ok w ∧ w.Inv) :=
+  SerdeLemmas.deRow_total H t
+
+theorem deCol_total (H : List Nat) (t : Tree) :
+    (∃ m, deCol H t = .error m) ∨ (∃ w, deCol H t = .ok w ∧ w.Inv) :=
+  SerdeLemmas.deCol_total H t
+
+/-- also from any well-formed starting world (one archetype block at a time) -/
+theorem deArchetype_inv (H : List Nat) (w : World) (t : Tree) (w' : World) (hw : w.Inv)
+    (h : deArchetype H w t = .ok w') : w'.Inv :=
+  SerdeLemmas.deArchetype_inv H w t w' hw h
+
+/-! ### 2. rejection -/
 
 /-- a bit pattern with a zero upper half (generation 0) is never accepted as a handle -/
-theorem zero_generation_rejected (n : Nat) (h : n < 4294967296) : entityOfBits n = none := by
-  unfold entityOfBits
-  have : n / 4294967296 = 0 := by omega
-  have h2 : ¬ n ≥ 18446744073709551616 := by omega
-  simp [this, h2]
+theorem zero_generation_rejected (n : Nat) (h : n < 4294967296) : entityOfBits n = none :=
+  entityOfBits_small n h
 
 /-- input that is not a map / not a sequence is rejected outright -/
 theorem wrong_shape_rejected (H : List Nat) (n : Nat) :
     (∃ m, deRow H (.num n) = .error m) ∧ (∃ m, deCol H (.num n) = .error m) :=
   ⟨⟨_, rfl⟩, ⟨_, rfl⟩⟩
+
+/-- row format: any key with zero generation makes the whole input rejected -/
+theorem row_zero_generation_rejected (H : List Nat) (kvs : List (Tree × Tree)) (k : Nat) (v : Tree)
+    (hmem : (Tree.num k, v) ∈ kvs) (hk : k < 4294967296) : ∃ m, deRow H (.map kvs) = .error m :=
+  deRow_zero_generation H kvs k v hmem hk
+
+/-- row format: a component id the context does not handle, anywhere, makes the input rejected -/
+theorem row_unknown_component_rejected (H : List Nat) (kvs : List (Tree × Tree)) (k : Tree)
+    (comps : List (Tree × Tree)) (t : Nat) (x : Tree)
+    (hmem : (k, Tree.map comps) ∈ kvs) (hc : (Tree.num t, x) ∈ comps) (ht : t ∉ H) :
+    ∃ m, deRow H (.map kvs) = .error m :=
+  deRow_unknown_component H kvs k comps t x hmem hc ht
+
+/-- column format: an entity with zero generation anywhere in a block's entity list -/
+theorem col_zero_generation_rejected (H : List Nat) (w : World) (n0 k0 : Nat) (ids ents cols : List Tree)
+    (b : Nat) (hb : Tree.num b ∈ ents) (hsmall : b < 4294967296) :
+    ∃ m, deArchetype H w (.seq [.num n0, .num k0, .seq ids, .seq (.seq ents :: cols)]) = .error m :=
+  deArchetype_zero_generation H w n0 k0 ids ents cols b hb hsmall
+
+/-- column format: a component id the context does not handle -/
+theorem col_unknown_component_rejected (H : List Nat) (w : World) (n0 k0 : Nat) (ids comps : List Tree)
+    (t : Nat) (ht : Tree.num t ∈ ids) (hH : t ∉ H) :
+    ∃ m, deArchetype H w (.seq [.num n0, .num k0, .seq ids, .seq comps]) = .error m :=
+  deArchetype_unknown_component H w n0 k0 ids comps t ht hH
+
+/-- column format: the same entity id twice in one block (whatever the generations) -/
+theorem col_repeated_entity_rejected (H : List Nat) (w : World) (n0 k0 : Nat) (ids ents cols : List Tree)
+    (i j a b : Nat) (hij : i < j) (hi : ents[i]? = some (.num a)) (hj : ents[j]? = some (.num b))
+    (hab : a % 4294967296 = b % 4294967296) :
+    ∃ m, deArchetype H w (.seq [.num n0, .num k0, .seq ids, .seq (.seq ents :: cols)]) = .error m :=
+  deArchetype_repeated_id H w n0 k0 ids ents cols i j a b hij hi hj hab
+
+/-- column format: the entity list is shorter or longer than the announced entity count -/
+theorem col_entity_count_rejected (H : List Nat) (w : World) (n0 k0 : Nat) (ids ents cols : List Tree)
+    (hlen : ents.length ≠ n0) :
+    ∃ m, deArchetype H w (.seq [.num n0, .num k0, .seq ids, .seq (.seq ents :: cols)]) = .error m :=
+  deArchetype_entity_count H w n0 k0 ids ents cols hlen
+
+/-- column format: a column shorter or longer than the announced entity count -/
+theorem col_column_length_rejected (H : List Nat) (w : World) (n0 k0 : Nat) (ids ents cols : List Tree)
+    (xs : List Tree) (hc : Tree.seq xs ∈ cols) (hlen : xs.length ≠ n0) :
+    ∃ m, deArchetype H w (.seq [.num n0, .num k0, .seq ids, .seq (.seq ents :: cols)]) = .error m :=
+  deArchetype_column_length H w n0 k0 ids ents cols xs hc hlen
+
+/-- column format: fewer columns than listed component ids ("end of components") -/
+theorem col_missing_column_rejected (H : List Nat) (w : World) (n0 k0 : Nat) (ids ents cols : List Tree)
+    (hlen : cols.length < ids.length) :
+    ∃ m, deArchetype H w (.seq [.num n0, .num k0, .seq ids, .seq (.seq ents :: cols)]) = .error m :=
+  deArchetype_missing_column H w n0 k0 ids ents cols hlen
+
+/-- the literal message for the first missing column -/
+theorem col_end_of_components (n t : Nat) (ts : List Nat) (acc : List (Nat × List Nat)) :
+    deColumns n (t :: ts) [] acc = .error "end of components" := rfl
+
+/-- column format: more elements in the component tuple than listed ids ("trailing elements") -/
+theorem col_trailing_rejected (H : List Nat) (w : World) (n0 k0 : Nat) (ids ents cols : List Tree)
+    (hlen : ids.length < cols.length) :
+    ∃ m, deArchetype H w (.seq [.num n0, .num k0, .seq ids, .seq (.seq ents :: cols)]) = .error m :=
+  deArchetype_trailing H w n0 k0 ids ents cols hlen
+
+/-- column format: a component tuple without the leading entity list -/
+theorem col_no_entity_list_rejected (H : List Nat) (w : World) (n0 k0 : Nat) (ids : List Tree) :
+    ∃ m, deArchetype H w (.seq [.num n0, .num k0, .seq ids, .seq []]) = .error m :=
+  deArchetype_no_entity_list H w n0 k0 ids
+
+/-- a block rejected on its own makes the whole column input rejected, wherever it stands -/
+theorem col_block_rejected (H : List Nat) (xs : List Tree) (t : Tree) (ht : t ∈ xs)
+    (hbad : ∀ w0, ∃ m, deArchetype H w0 t = .error m) : ∃ m, deCol H (.seq xs) = .error m :=
+  deCol_error_of_block H xs t ht hbad
+
+/-- conversely, everything an accepted block satisfies: known ids, `n0` entities with non-zero
+generations and pairwise distinct ids, exactly one column of exactly `n0` numbers per listed id -/
+theorem col_accepted_shape (H : List Nat) (w w' : World) (n0 k0 : Nat) (ids comps : List Tree)
+    (h : deArchetype H w (.seq [.num n0, .num k0, .seq ids, .seq comps]) = .ok w') :
+    ∃ (idl bits : List Nat) (es : List Entity) (cols : List Tree),
+      ids = idl.map Tree.num ∧ (∀ t ∈ idl, t ∈ H) ∧
+      comps = .seq (bits.map Tree.num) :: cols ∧ bits.length = n0 ∧
+      bits.map entityOfBits = es.map some ∧ (es.map (·.id)).Nodup ∧
+      cols.length = idl.length ∧
+      ∀ c ∈ cols, ∃ vs : List Nat, c = .seq (vs.map Tree.num) ∧ vs.length = n0 :=
+  deArchetype_ok_shape H w w' n0 k0 ids comps h
+
+/-! ### 3. what an accepted row input produces -/
+
+/-- `RowEntry H kv (e, b)`: the entry `kv` is `(bitsOf e, map comps)` with a non-zero generation and
+the context built the bundle `b` from `comps`.  An accepted input decodes entry by entry; the result
+satisfies the invariant; a handle maps to the canonical bundle of the LAST entry naming its id if
+that entry names exactly this handle (a later entry replaces the earlier entity, as `spawn_at`
+does), and to nothing otherwise. -/
+theorem deRow_ok_lookup (H : List Nat) (kvs : List (Tree × Tree)) (w : World)
+    (h : deRow H (.map kvs) = .ok w) :
+    ∃ L, All₂ (RowEntry H) kvs L ∧ w.Inv ∧ ∀ e, w.lookup e =
+      match lastEntry e.id L with
+      | some p => if p.1 = e then some (canon p.2) else none
+      | none => none :=
+  SerdeLemmas.deRow_ok_lookup H kvs w h
+
+/-- keys with pairwise distinct ids: every entry is there, nothing else is -/
+theorem deRow_ok_lookup_nodup (H : List Nat) (kvs : List (Tree × Tree)) (w : World)
+    (h : deRow H (.map kvs) = .ok w) :
+    ∃ L, All₂ (RowEntry H) kvs L ∧ w.Inv ∧ ((L.map (·.1.id)).Nodup →
+      (∀ p ∈ L, w.lookup p.1 = some (canon p.2)) ∧ (∀ e, e ∉ L.map (·.1) → w.lookup e = none)) :=
+  SerdeLemmas.deRow_ok_lookup_nodup H kvs w h
+
+/-- the key of a decoded entry is exactly the handle's bit pattern -/
+theorem rowEntry_key (H : List Nat) (kv : Tree × Tree) (p : Entity × List Comp) (h : RowEntry H kv p) :
+    kv.1 = .num (bitsOf p.1) := by
+  obtain ⟨k, comps, rfl, he, -⟩ := h
+  rw [bitsOf_of_entityOfBits he]
+
+/-- the bundle of a decoded entry: for every type, the LAST value the entry's component map gives for
+it (`EntityBuilder::add` replaces), the unit value for a zero-sized type (`lastVal`); the map's
+entries are all (handled id, number) pairs -/
+theorem rowEntry_bundle (H : List Nat) (comps : List (Tree × Tree)) (b : List Comp)
+    (h : deEntityMap H comps [] = .ok b) :
+    (b.map (·.1)).Nodup ∧ (∀ t, lookupComp t b = lastVal t comps) ∧
+    ∀ kv ∈ comps, ∃ t v, kv = (Tree.num t, Tree.num v) ∧ t ∈ H :=
+  ⟨deEntityMap_nodup H comps [] b (by simp) h,
+   fun t => by rw [deEntityMap_lookup H comps [] b h t]; simp [lookupComp],
+   deEntityMap_entries H comps [] b h⟩
+
+/-! ### non-vacuity -/
+
+def isError {α : Type} : Except String α → Bool
+  | .error _ => true
+  | .ok _ => false
+
+def lookups (r : Except String World) (es : List Entity) : Option (List (Option (List Comp))) :=
+  match r with
+  | .ok w => some (es.map w.lookup)
+  | .error _ => none
+
+/-- handle 5v2 -/
+def k52 : Nat := 2 * 4294967296 + 5
+
+-- a repeated handle: the later entry wins; a repeated component id: the later value wins; a value for
+-- the zero-sized type 7 is ignored
+def rowDup : Tree :=
+  .map [(.num k52, .map [(.num 1, .num 10)]),
+        (.num (3 * 4294967296 + 5), .map [(.num 2, .num 20), (.num 7, .num 99), (.num 2, .num 21)])]
+
+example : lookups (deRow [1, 2, 7] rowDup) [⟨5, 2⟩, ⟨5, 3⟩, ⟨0, 1⟩] =
+    some [none, some [(2, 21), (7, 0)], none] := by decide +kernel
+
+example : ∃ w, deRow [1, 2, 7] rowDup = .ok w ∧ w.Inv := by
+  rcases deRow_total [1, 2, 7] rowDup with ⟨m, hm⟩ | h
+  · have : isError (deRow [1, 2, 7] rowDup) = false := by decide +kernel
+    rw [hm] at this; cases this
+  · exact h
+
+-- the same input under a context that does not handle type 7, and with a zero generation
+example : isError (deRow [1, 2] rowDup) = true := by decide +kernel
+example : isError (deRow [1, 2, 7] (.map [(.num 5, .map [])])) = true := by decide +kernel
+
+/-- a well-formed column block: two entities (3v1, 9v4) with types 1 and 2, listed out of order -/
+def colOk : Tree :=
+  .seq [.seq [.num 2, .num 2, .seq [.num 2, .num 1],
+    .seq [.seq [.num (4294967296 + 3), .num (4 * 4294967296 + 9)],
+          .seq [.num 20, .num 21], .seq [.num 10, .num 11]]]]
+
+example : lookups (deCol [1, 2] colOk) [⟨3, 1⟩, ⟨9, 4⟩, ⟨9, 1⟩, ⟨0, 1⟩] =
+    some [some [(1, 10), (2, 20)], some [(1, 11), (2, 21)], none, none] := by decide +kernel
+
+example : ∃ w, deCol [1, 2] colOk = .ok w ∧ w.Inv := by
+  rcases deCol_total [1, 2] colOk with ⟨m, hm⟩ | h
+  · have : isError (deCol [1, 2] colOk) = false := by decide +kernel
+    rw [hm] at this; cases this
+  · exact h
+
+-- mutations of `colOk`, each rejected: repeated entity id (9v4, 9v1), short column, missing column,
+-- trailing element, announced count too large, unknown id
+example : isError (deCol [1, 2] (.seq [.seq [.num 2, .num 2, .seq [.num 2, .num 1],
+    .seq [.seq [.num (4294967296 + 9), .num (4 * 4294967296 + 9)],
+          .seq [.num 20, .num 21], .seq [.num 10, .num 11]]]])) = true := by decide +kernel
+example : isError (deCol [1, 2] (.seq [.seq [.num 2, .num 2, .seq [.num 2, .num 1],
+    .seq [.seq [.num (4294967296 + 3), .num (4 * 4294967296 + 9)],
+          .seq [.num 20], .seq [.num 10, .num 11]]]])) = true := by decide +kernel
+example : isError (deCol [1, 2] (.seq [.seq [.num 2, .num 2, .seq [.num 2, .num 1],
+    .seq [.seq [.num (4294967296 + 3), .num (4 * 4294967296 + 9)],
+          .seq [.num 20, .num 21]]]])) = true := by decide +kernel
+example : isError (deCol [1, 2] (.seq [.seq [.num 2, .num 2, .seq [.num 2, .num 1],
+    .seq [.seq [.num (4294967296 + 3), .num (4 * 4294967296 + 9)],
+          .seq [.num 20, .num 21], .seq [.num 10, .num 11], .seq []]]])) = true := by decide +kernel
+example : isError (deCol [1, 2] (.seq [.seq [.num 3, .num 2, .seq [.num 2, .num 1],
+    .seq [.seq [.num (4294967296 + 3), .num (4 * 4294967296 + 9)],
+          .seq [.num 20, .num 21], .seq [.num 10, .num 11]]]])) = true := by decide +kernel
+example : isError (deCol [1] colOk) = true := by decide +kernel
 
 end Hecs.Props.C15
